@@ -422,7 +422,7 @@ var critCands = []uint64{0xF1, 0x3E9, 0xFD, 0xFFFF, 0x10001, 1, 3, 9, 11, 13, 15
 func c13Run(c *h.Ctx) {
 	c13Index()
 	r := c.Rng("c13")
-	per := c.Pick(6, 110)
+	per := c.Pick(20, 110)
 	c.Note("models_generated", strconv.Itoa(reg.NGenerated))
 	c.Note("models_defined", strconv.Itoa(reg.NDefined))
 	for mi, m := range reg.Models {
